@@ -31,6 +31,7 @@ def dispatch (line : String) : String :=
   | "lintwfp" :: args => Driver.ParseWfD.handleLintP args
   | "exprwfp" :: args => Driver.ParseWfD.handleExprP args
   | "actionmeta" :: args => Driver.ParseWfD.handleActionMeta args
+  | "configmeta" :: args => Driver.ParseWfD.handleConfigMeta args
   | "lintsort" :: args => Driver.LintD.handleSort args
   | "relpath" :: args => Driver.LintD.handleRel args
   | "projectat" :: args => Driver.LintD.handleProjectAt args
